@@ -162,6 +162,13 @@ def evaluate(ctx, name, jobs, results, count=True):
         if 'parse_error' in r:
             ctx.hist('outcome', 'parse-error (discarded)')
             continue
+        if 'unloadable' in r:
+            bad += 1
+            ctx.hist('outcome', 'assembled-but-unloadable')
+            ctx.violation({'kind': 'assembled-output-does-not-load', 'what': r['unloadable']['class']},
+                          f'the assembler reported success but the reader refuses its output: {r["unloadable"]["message"]}',
+                          {'src': j['src'], 'w': j['w'], 'version': j['version'], 'observed': r['unloadable']})
+            continue
         if 'error' in r:
             kind, k = classify_error(r['error'])
             if kind == 'other':
